@@ -308,6 +308,26 @@ def shiftRef (kr : Bool) (e : Edit) : Ref → Option Ref
     | some a, some b => some (.rows a b)
     | _, _ => none
 
+/-! #### what the code does with every index, deleted or not -/
+
+/-- indices at or after `num` move by `off` and are floored at 1: a total function. It agrees with
+`shiftIdx` wherever that is defined; an index inside a deleted block slides towards the block's
+upper neighbour instead of becoming `#REF!`. -/
+def slideIdx (num off : Int) (i : Nat) : Nat :=
+  if (i : Int) < num then i else (max 1 ((i : Int) + off)).toNat
+
+def slideCol (kr : Bool) (e : Edit) (c : ColEnd) : ColEnd :=
+  if e.dir = .cols ∧ moves kr c.abs then { c with n := slideIdx e.num e.off c.n } else c
+
+def slideRow (kr : Bool) (e : Edit) (r : RowEnd) : RowEnd :=
+  if e.dir = .rows ∧ moves kr r.abs then { r with n := slideIdx e.num e.off r.n } else r
+
+def slideRef (kr : Bool) (e : Edit) : Ref → Ref
+  | .cell c r => .cell (slideCol kr e c) (slideRow kr e r)
+  | .range c1 r1 c2 r2 => .range (slideCol kr e c1) (slideRow kr e r1) (slideCol kr e c2) (slideRow kr e r2)
+  | .cols c1 c2 => .cols (slideCol kr e c1) (slideCol kr e c2)
+  | .rows r1 r2 => .rows (slideRow kr e r1) (slideRow kr e r2)
+
 /-- the cells a reference denotes: positions `(col,row)` of the grid -/
 def denote : Ref → Nat × Nat → Prop
   | .cell c r => fun p => p.1 = c.n ∧ p.2 = r.n
@@ -326,26 +346,28 @@ def shiftPos (e : Edit) (p : Nat × Nat) : Option (Nat × Nat) :=
 
 /-! #### parser for the reference grammar (inverse of `render`; accepts either case, leading zeros) -/
 
-/-- one endpoint: optional `$`, letters, optional `$`, digits; either part may be missing -/
-def parseEnd (s : Str) : Option (Option ColEnd × Option RowEnd) :=
-  let d1 := match s with | c :: _ => isDollar c | [] => false
-  let s1 := if d1 then s.drop 1 else s
+def headDollar (s : Str) : Bool := match s with | c :: _ => isDollar c | [] => false
+def stripDollar (s : Str) : Str := if headDollar s then s.drop 1 else s
+
+/-- `$?digits` -/
+def parseRowPart (s : Str) : Option RowEnd :=
+  (digitsVal (stripDollar s)).map (fun n => ⟨headDollar s, n⟩)
+
+/-- what follows the optional leading `$` of an endpoint -/
+def parseEndCore (d1 : Bool) (s1 : Str) : Option (Option ColEnd × Option RowEnd) :=
   let letters := s1.takeWhile isLetter
   let s2 := s1.dropWhile isLetter
-  if letters.isEmpty then
-    match digitsVal s1 with
-    | some r => some (none, some ⟨d1, r⟩)
-    | none => none
+  if letters.isEmpty then (digitsVal s1).map (fun n => (none, some ⟨d1, n⟩))
   else
     match colRaw letters with
     | none => none
     | some cn =>
-      if s2.isEmpty then some (some ⟨d1, cn⟩, none) else
-      let d2 := match s2 with | c :: _ => isDollar c | [] => false
-      let s3 := if d2 then s2.drop 1 else s2
-      match digitsVal s3 with
-      | some r => some (some ⟨d1, cn⟩, some ⟨d2, r⟩)
-      | none => none
+      if s2.isEmpty then some (some ⟨d1, cn⟩, none)
+      else (parseRowPart s2).map (fun r => (some ⟨d1, cn⟩, some r))
+
+/-- one endpoint: optional `$`, letters, optional `$`, digits; either part may be missing -/
+def parseEnd (s : Str) : Option (Option ColEnd × Option RowEnd) :=
+  parseEndCore (headDollar s) (stripDollar s)
 
 def parseRef (s : Str) : Option Ref :=
   match splitColon s with
@@ -397,6 +419,18 @@ def expectTv (sheet sheetN : Str) (kr : Bool) (e : Edit) (tv : Str) : Out × Str
     let (pfx, _) := splitSheet tv
     (.moved r, (match pfx with | some p => p ++ ['!'] | none => []) ++ render r)
   | o => (o, tv)
+
+/-- the token value the code produces whether or not an endpoint is deleted (`none`: leaves the grid) -/
+def expectSlide (sheet sheetN : Str) (kr : Bool) (e : Edit) (tv : Str) : Option Str :=
+  let (pfx, cell) := splitSheet tv
+  let target := match pfx with | some p => p | none => sheetN
+  if target = sheet then
+    match parseRef cell with
+    | none => some tv
+    | some r =>
+      let r' := slideRef kr e r
+      if inGrid r' then some ((match pfx with | some p => p ++ ['!'] | none => []) ++ render r') else none
+  else some tv
 
 end Spec
 
